@@ -48,6 +48,7 @@ VARIANTS = {
             ("badstops", "an unparseable list entry ends the scan instead of being skipped")],
     "C10": [("root_keeps_aux", "root squashing forgets the auxiliary gids"),
             ("case_sensitive", "the mode string is compared case-sensitively"),
+            ("ctx_hoisted", "the AuthContext is built once per connection, so the first parsed AUTH_SYS credential stays attached"),
             ("gids17_ok", "17 auxiliary gids are accepted")],
     "C12": [("no_aux", "auxiliary groups are ignored when the class is chosen"),
             ("ro_ignored_for_extend", "EXTEND is granted on a read-only export")],
@@ -57,9 +58,10 @@ REASONS = {
     "C09": ("isIPAllowed (auth.go) disagrees", "Server.isIPAllowed (connection-level filter) disagrees",
             "ValidateAuthentication decides against the host and port rule", "a request the rule rejects",
             "a rejected request reached", "an admissible request was answered MSG_DENIED",
-            "acceptLoop accepts or refuses", "a request on an accepted connection"),
+            "acceptLoop accepts or refuses", "a request on an accepted connection", "a request on an open connection",
+            "an admissible request on an open connection"),
     "C10": ("a credential is admitted or denied against the rule", "effective uid/gid differ", "auxiliary gids after squashing differ",
-            "the identity ACCESS acts on differs", "squashing altered auxiliary-gid data"),
+            "the identity ACCESS acts on differs", "squashing altered auxiliary-gid data", "a request on a connection is"),
     "C12": ("ACCESS grants", "ACCESS withholds"),
 }
 
@@ -96,7 +98,7 @@ def exhaustive(ctx, pid):
         # measured (4 workers): widths (W4,PZ,PO) = (1,1,1) 49 420 states; (2,1,1) 209 716 states; (2,2,1) about 1.1 M states
         runs = [dict(w4=1, pz=1, po=1)] if q else [dict(w4=1, pz=1, po=1), dict(w4=2, pz=1, po=1), dict(w4=2, pz=2, po=1), dict(w4=1, pz=2, po=2)]
     elif pid == "C10":
-        # measured: MaxAux 1 = 25 592 states; MaxAux 2 = 179 256 states
+        # measured (with the second request on the connection): MaxAux 1 = 16 080 distinct states; MaxAux 2 = about 112 000
         runs = [dict(ids=ctx.tla_set(IDS7), maxaux=1 if q else 2, modes=ctx.tla_set(MODES8))]
     else:
         # measured: 512 modes = 131 072 states; 4096 modes = 1 048 576 states
@@ -173,6 +175,14 @@ def brief(pid, ln):
     """One-line description of the failing input for the VIOLATION reason."""
     try:
         e = json.loads(ln)
+        if e.get("ev") == "c09s":
+            return "one connection, client %r port %s, connect verdict %s refused=%s; steps (allow-list, secure, rule, reply, dispatched, backend): %s" % (
+                e["client"]["text"], e["port"], e["exp_conn"], e["refused"],
+                [([x["text"] for x in st["list"]], st["secure"], st["exp"], st["rpc"], st["dispatched"], st["backend"]) for st in e["steps"]])
+        if e.get("ev") == "c10s":
+            return "one connection, squash %r; requests (credential -> reply, probes granting READ as owner / as group): %s" % (
+                e["mode"], [("%s %s/%s aux %s" % (st["cred"]["flavor"], st["cred"]["uid"], st["cred"]["gid"], st["cred"]["aux"]),
+                             st["rpc"], st["own"], st["grp"]) for st in e["steps"]])
         if pid == "C09":
             return "client %r list %r port %s secure %s; srv=%s va=%s conn=%s calls=%s" % (
                 e["client"]["text"], [x["text"] for x in e["list"]], e["port"], e["secure"], e["srv"]["allowed"], e["va"]["allowed"],
@@ -190,10 +200,36 @@ def brief(pid, ln):
 # Corruptions are chosen so that the corrupted line contradicts the rule whatever the code did
 # (a corruption that merely flips a recorded answer could repair a wrong answer).
 
+def _mut_sessions(lines):
+    """Corrupted copies of session lines: a request the policy in force rejects shown as processed (C09),
+    a request shown as served under the previous request's identity (C10)."""
+    out = []
+    for ln in lines:
+        e = json.loads(ln)
+        if e.get("ev") == "c09s" and not out:
+            ks = [k for k, st in enumerate(e["steps"]) if st["exp"] == "no" and st["sent"] and k > 0]
+            if ks:
+                m = copy.deepcopy(e)
+                m["steps"][ks[0]].update(rpc="ACCEPTED", dispatched=True, backend=1)
+                out.append(m)
+        if e.get("ev") == "c10s" and not out and e["lower"] == "none":
+            for k in range(1, len(e["steps"])):
+                a, b = e["steps"][k - 1], e["steps"][k]
+                if a["cred"]["flavor"] == "SYS" and b["cred"]["flavor"] == "SYS" and a["cred"]["body"] == "ok" and b["cred"]["body"] == "ok" \
+                        and a["cred"]["uid"] != b["cred"]["uid"] and b["cred"]["uid"] != "0":
+                    m = copy.deepcopy(e)
+                    m["steps"][k].update(rpc="ACCEPTED", allowed=True, own=[a["cred"]["uid"]] if a["cred"]["uid"] != "0" else ["4242"])
+                    out.append(m)
+                    break
+    return out
+
+
 def _mut_c09(lines):
     out = []
     for ln in lines:
         e = json.loads(ln)
+        if e.get("ev") != "c09":
+            continue
         if e["exp"]["admit"] == "no" and e["calls"] and len(out) == 0:
             m = copy.deepcopy(e)
             m["calls"][0].update(rpc="ACCEPTED", dispatched=True, backend=2)
@@ -211,6 +247,8 @@ def _mut_c10(lines):
     out = []
     for ln in lines:
         e = json.loads(ln)
+        if e.get("ev") != "c10":
+            continue
         if len(out) == 0 and e["lower"] == "all" and e["cred"]["flavor"] == "SYS" and e["cred"]["body"] == "ok":
             m = copy.deepcopy(e)
             m["va"].update(allowed=True, uid="0", sys=True)
@@ -252,6 +290,11 @@ def add_mutations(ctx, pid, trace):
     validated in the same TLC run as the record itself); returns (number of real lines, number appended)."""
     lines = open(trace).read().splitlines()
     muts = {"C09": _mut_c09, "C10": _mut_c10, "C12": _mut_c12}[pid](lines)
+    if pid in ("C09", "C10"):
+        sm = _mut_sessions(lines)
+        if not sm:
+            raise vflib.Broken("binding demonstration: no session line suitable for corruption in " + trace)
+        muts += sm
     if not muts:
         raise vflib.Broken("binding demonstration: no line suitable for corruption in " + trace)
     with open(trace, "a") as f:
@@ -329,7 +372,10 @@ def run_steps(ctx, pid, pool):
         for k, v in res["stats"].items():
             stats[k] = stats.get(k, 0) + v
     # the corrupted copies were counted by the trace spec's statistics; take them out again
-    stats[pid.lower()] -= nmut
+    nsm = 1 if pid in ("C09", "C10") else 0     # one of the corrupted copies is a session line
+    stats[pid.lower()] -= nmut - nsm
+    if nsm:
+        stats[pid.lower() + "s"] -= nsm
     stats["lines"] -= nmut
     if pid == "C12":
         stats["c12_decisions"] -= 64 * nmut
@@ -344,19 +390,23 @@ def fill_coverage(ctx, pid, summ, stats):
     if pid == "C09":
         if stats["c09"] != summ["vectors"] or stats["c09_no"] == 0 or stats["c09_yes"] == 0 or stats["c09_either"] == 0:
             raise vflib.Broken("C09: the vector set lost a verdict class: %s" % stats)
+        if stats["c09s"] != summ["sessions"] or stats["c09s"] == 0 or stats["c09s_denied"] == 0:
+            raise vflib.Broken("C09: the sessions on one connection were not driven: %s %s" % (stats, summ))
         if stats["c09_denied"] == 0 or summ["call_kinds_denied_and_accepted"] < summ["call_kinds"] // 2:
             raise vflib.Broken("C09: too few program/procedure classes were seen both denied and admitted: %s" % summ)
-        cov["traces_validated_against_impl"] = stats["c09"]
-        cov["evaluations"] = stats["c09"] * 3 + stats["c09_calls"] + stats["c09_conn"]
+        cov["traces_validated_against_impl"] = stats["c09"] + stats["c09s"]
+        cov["evaluations"] = stats["c09"] * 3 + stats["c09_calls"] + stats["c09_conn"] + stats["c09s_steps"]
         cov["distinct_nontrivial"] = stats["c09_no"]
         cov["rule"] = ("one trace per TLC-generated vector (client, allow-list, port, secure): every prefix length 0..32 and 0..128 with "
                        "clients inside / just outside / far outside, single addresses differing in each bit, IPv4-mapped forms on "
                        "either side, IPv6 CIDRs shorter than /96 (either), malformed clients and entries, zoned addresses, ports "
                        "around 1024; evaluations = answers of isIPAllowed, Server.isIPAllowed, ValidateAuthentication, requests "
-                       "through HandleCall and connections through acceptLoop; non-trivial = vectors the rule rejects")
-        cov["spec_actions_covered_by_impl"] = ["Accept(refuse)", "Accept(pass)", "Step1(deny)", "Step1(pass)", "Step2(deny)", "Step2(pass)",
+                       "through HandleCall and connections through acceptLoop; plus sessions: one long-lived connection through the "
+                       "real connection loop, allow-list / secure flag replaced with UpdatePolicyOptions between its requests, every "
+                       "request judged by the policy in force when it arrives; non-trivial = vectors the rule rejects")
+        cov["spec_actions_covered_by_impl"] = ["Reconfigure", "Accept(refuse)", "Accept(pass)", "Step1(deny)", "Step1(pass)", "Step2(deny)", "Step2(pass)",
                                                "Step3(deny flavor)", "Spawn", "Handler"]
-        cov["harness_summary"] = {k: summ[k] for k in ("vectors", "calls", "denied", "connections", "refused", "call_kinds",
+        cov["harness_summary"] = {k: summ[k] for k in ("sessions", "vectors", "calls", "denied", "connections", "refused", "call_kinds",
                                                        "call_kinds_denied_and_accepted", "dispatch_observable")}
         if not summ["dispatch_observable"]:
             ctx.notes.append("handler dispatch is not observable through the debug log on this tree; 'reaches no procedure handler' "
@@ -370,16 +420,21 @@ def fill_coverage(ctx, pid, summ, stats):
     elif pid == "C10":
         if stats["c10"] != summ["vectors"] or stats["c10_denied"] == 0 or stats["c10_changed"] == 0 or stats["c10_probed"] == 0:
             raise vflib.Broken("C10: the vector set lost a class: %s" % stats)
-        cov["traces_validated_against_impl"] = stats["c10"]
-        cov["evaluations"] = stats["c10"] * 3 + stats["c10_probed"] * 14
+        if stats["c10s"] != summ["sessions"] or stats["c10s"] == 0:
+            raise vflib.Broken("C10: the sessions on one connection were not driven: %s %s" % (stats, summ))
+        cov["traces_validated_against_impl"] = stats["c10"] + stats["c10s"]
+        cov["evaluations"] = stats["c10"] * 3 + stats["c10_probed"] * 14 + stats["c10s_steps"] * 14
         cov["distinct_nontrivial"] = stats["c10_changed"] + stats["c10_denied"]
         cov["rule"] = ("one trace per TLC-generated vector (squash mode x flavor x body encoding x uid x gid x auxiliary list over the ids "
                        "0,1,1000,65534,65535,2^31,2^32-1): lists up to length 1 (quick) / 2 (thorough) exhaustively, lengths 2..16 sampled, "
                        "17 gids, truncation at every word; evaluations = ValidateAuthentication twice (parsed inside / pre-parsed shared "
-                       "slice), HandleCall, 14 ACCESS probes; non-trivial = vectors whose ids change or that are denied")
+                       "slice), HandleCall, 14 ACCESS probes; plus sessions: 3-5 requests with different credentials (AUTH_SYS, "
+                       "AUTH_NONE, refused flavors, undecodable bodies) on ONE connection through the real connection loop, each "
+                       "judged by its own credential through 14 ACCESS probes; non-trivial = vectors whose ids change or that are denied")
         cov["spec_actions_covered_by_impl"] = ["Step3(NONE)", "Step3(SYS parse ok)", "Step3(SYS undecodable)", "Step3(other flavor)",
-                                               "Squash(all)", "Squash(root)", "Squash(none)", "Squash(unrecognised)", "Spawn", "Handler"]
-        cov["harness_summary"] = {k: summ[k] for k in ("vectors", "denied", "ids_changed", "cfg_ok")}
+                                               "Squash(all)", "Squash(root)", "Squash(none)", "Squash(unrecognised)", "Spawn", "Handler",
+                                               "NextRequest"]
+        cov["harness_summary"] = {k: summ[k] for k in ("sessions", "vectors", "denied", "ids_changed", "cfg_ok")}
         ctx.assumptions += ["the empty mode string is the documented default 'none'; a mixed-case mode that New() accepts must act as its "
                             "lower-case form, one that New() refuses may also act as unrecognised",
                             "for an unrecognised mode only uid and gid are constrained (the statement is silent on auxiliary gids)",
